@@ -267,17 +267,19 @@ func setKey(item reflect.Value, i int, n int) {
 }
 
 // keyN maps identifier id of the domain to the value of key field j. For multi-key items no single
-// key field is unique over the domain, only the tuple is ((0,0,0),(0,1,1),(1,0,1),(1,1,0),(2,0,0)...),
-// and ascending ids give lexicographically ascending tuples.
+// key field is unique over the domain, only the tuple is ((1,2,3),(1,12,13),(11,2,13),(11,12,3),(21,2,3)...),
+// and ascending ids give lexicographically ascending tuples. The values mix one- and two-digit numbers
+// whose decimal renderings run into each other ((1,12) and (11,2)), so that an identity that is not
+// computed per key field shows.
 func (li *ListInfo) keyN(j, id int) int {
 	if len(li.Keys) > 1 {
 		switch j {
 		case 0:
-			return id / 2
+			return 1 + 10*(id/2)
 		case 1:
-			return id % 2
+			return 2 + 10*(id%2)
 		default:
-			return (id/2 + id) % 2
+			return 3 + 10*((id/2+id)%2)
 		}
 	}
 	return id
